@@ -4,7 +4,11 @@ import MazeVerif.Lemmas.Component
 
 `generation_meta` of the generator models (`Model/Gen.lean`): `start_coord`, `visited_cells`, `fully_connected`.
 All theorems hold for every argument combination (accessible_cells as any count, any depth bound, forks on/off,
-plain/randomized stack, given or random start), every grid shape and every draw list. -/
+plain/randomized stack, ANY given `start_coord` or a random one), every grid shape and every draw list. No theorem
+assumes the given start to be inside the grid: a given start outside the grid is rejected by `_random_start_coord`
+(ValueError = the model's `none`, `C01_start_rejected`), so a run that returns has its start in the grid
+(`C01_start_in_grid_of_success`; before that repair the real code returned `fully_connected=True` with an isolated
+cell and a phantom visited cell — known_findings.txt, key start-coord-outside-grid). -/
 namespace MZ
 open SimpleGraph
 
@@ -14,7 +18,6 @@ def metaComponent (rows cols : Nat) (fullyConnected : Bool) (visited : List Cell
   if fullyConnected then cells rows cols else visited
 
 private theorem dfsTop_inv {rows cols : Nat} (hr : 0 < rows) (hc : 0 < cols) {a given draws fuel o}
-    (hg : ∀ c, given = some c → inGrid rows cols c)
     (h : genDfsTop rows cols a given draws fuel = some o) :
     ∃ d1 s, inGrid rows cols o.start ∧ genDfs rows cols a o.start d1 fuel = some s ∧
       o.edges = s.edges ∧ o.visited = s.visited ∧ o.fullyConnected = decide (s.visited.length = rows * cols) := by
@@ -27,63 +30,56 @@ private theorem dfsTop_inv {rows cols : Nat} (hr : 0 < rows) (hc : 0 < cols) {a 
     · next s hs =>
       simp only [Option.some.injEq] at h; subst h
       refine ⟨d1, s, ?_, hs, rfl, rfl, rfl⟩
-      unfold startCoord at hst
-      split at hst
-      · simp only [Option.some.injEq, Prod.mk.injEq] at hst; obtain ⟨rfl, _⟩ := hst; exact hg _ rfl
-      · exact C01_start_in_grid hr hc hst
+      exact startCoord_in_grid' hr hc hst
 
 /-- `visited_cells` is exactly the set of cells reachable from `start_coord` -/
 theorem C12_dfs_visited_exact {rows cols : Nat} (hr : 0 < rows) (hc : 0 < cols) {a given draws fuel o}
-    (hg : ∀ c, given = some c → inGrid rows cols c)
     (h : genDfsTop rows cols a given draws fuel = some o) (t : Cell) :
     t ∈ o.visited ↔ Reach o.edges o.start t := by
-  obtain ⟨d1, s, hin, hs, he, hv, _⟩ := dfsTop_inv hr hc hg h
+  obtain ⟨d1, s, hin, hs, he, hv, _⟩ := dfsTop_inv hr hc h
   rw [he, hv]; exact genDfs_visited_exact hin hs t
 
 /-- the plain dfs generator sets `fully_connected` exactly when every cell is reachable from every other -/
 theorem C12_dfs_flag_iff {rows cols : Nat} (hr : 0 < rows) (hc : 0 < cols) {a given draws fuel o}
-    (hg : ∀ c, given = some c → inGrid rows cols c)
     (h : genDfsTop rows cols a given draws fuel = some o) :
     o.fullyConnected = true ↔ ∀ u v, inGrid rows cols u → inGrid rows cols v → Reach o.edges u v := by
-  obtain ⟨d1, s, hin, hs, he, hv, hf⟩ := dfsTop_inv hr hc hg h
+  obtain ⟨d1, s, hin, hs, he, hv, hf⟩ := dfsTop_inv hr hc h
   rw [hf, he, decide_eq_true_iff]; exact genDfs_flag_iff hin hs
 
 /-- the connections form a tree over precisely the visited cells: one connection per cell beyond the start, no cycle,
     every connection joins two visited cells, every visited cell lies in the grid and is listed once -/
 theorem C12_dfs_tree_on_visited {rows cols : Nat} (hr : 0 < rows) (hc : 0 < cols) {a given draws fuel o}
-    (hg : ∀ c, given = some c → inGrid rows cols c)
     (h : genDfsTop rows cols a given draws fuel = some o) :
     o.edges.length + 1 = o.visited.length ∧ o.edges.Nodup ∧ o.visited.Nodup ∧ (graphOf o.edges).IsAcyclic ∧
     (∀ e ∈ o.edges, (ends e).1 ∈ o.visited ∧ (ends e).2 ∈ o.visited) ∧
     (∀ c ∈ o.visited, inGrid rows cols c) ∧ o.start ∈ o.visited := by
-  obtain ⟨d1, s, hin, hs, he, hv, _⟩ := dfsTop_inv hr hc hg h
+  obtain ⟨d1, s, hin, hs, he, hv, _⟩ := dfsTop_inv hr hc h
   obtain ⟨hT, _⟩ := loop_invT fuel _ _ (InvT.init hin) hs
   rw [he, hv]
   exact ⟨hT.len, hT.enodup, hT.nodup, genDfs_acyclic hin hs, hT.eends, hT.grid, hT.hstart⟩
 
 /-- never more cells than requested (the start cell is always there) -/
 theorem C12_dfs_count_le {rows cols : Nat} (hr : 0 < rows) (hc : 0 < cols) {a given draws fuel o}
-    (hg : ∀ c, given = some c → inGrid rows cols c)
     (h : genDfsTop rows cols a given draws fuel = some o) : o.visited.length ≤ max 1 a.nAcc := by
-  obtain ⟨d1, s, hin, hs, _, hv, _⟩ := dfsTop_inv hr hc hg h
+  obtain ⟨d1, s, hin, hs, _, hv, _⟩ := dfsTop_inv hr hc h
   rw [hv]; exact genDfs_count_le hin hs
 
 /-- exactly the requested number (capped by the grid) when neither the depth bound nor a fork ban applies -/
 theorem C12_dfs_count_eq {rows cols : Nat} (hr : 0 < rows) (hc : 0 < cols) {a given draws fuel o}
-    (hg : ∀ c, given = some c → inGrid rows cols c) (hf : a.doForks = true)
+    (hf : a.doForks = true)
     (hd : 2 * ((rows * cols : Nat) : Int) ≤ a.maxDepth)
     (h : genDfsTop rows cols a given draws fuel = some o) :
     o.visited.length = min (max 1 a.nAcc) (rows * cols) := by
-  obtain ⟨d1, s, hin, hs, _, hv, _⟩ := dfsTop_inv hr hc hg h
+  obtain ⟨d1, s, hin, hs, _, hv, _⟩ := dfsTop_inv hr hc h
   rw [hv]; exact genDfs_count_eq hin hf hd hs
 
 /-- `do_forks=False`: the tree is one corridor — the visited cells in order form a simple lattice walk from the
     start and the connections are exactly its consecutive pairs -/
 theorem C12_no_forks_corridor {rows cols : Nat} (hr : 0 < rows) (hc : 0 < cols) {a given draws fuel o}
-    (hg : ∀ c, given = some c → inGrid rows cols c) (hf : a.doForks = false)
+    (hf : a.doForks = false)
     (h : genDfsTop rows cols a given draws fuel = some o) :
     o.visited.head? = some o.start ∧ o.visited.Nodup ∧ Chain o.visited ∧ o.edges = pathEdges o.visited := by
-  obtain ⟨d1, s, hin, hs, he, hv, _⟩ := dfsTop_inv hr hc hg h
+  obtain ⟨d1, s, hin, hs, he, hv, _⟩ := dfsTop_inv hr hc h
   obtain ⟨h1, h2, h3, h4, _⟩ := genDfs_no_forks_corridor hin hf hs
   rw [he, hv]; exact ⟨h1, h2, h3, h4⟩
 
@@ -95,10 +91,9 @@ theorem C12_wilson_flag_true {rows cols : Nat} (hr : 0 < rows) (hc : 0 < cols) {
 
 /-- dfs+percolation keeps the dfs flag; extra connections cannot disconnect anything, so a set flag is still true -/
 theorem C12_dfsperc_flag_sound {rows cols : Nat} (hr : 0 < rows) (hc : 0 < cols) {p a given draws rands fuel o}
-    (hg : ∀ c, given = some c → inGrid rows cols c)
     (h : genDfsPercolationTop rows cols p a given draws rands fuel = some o) (hflag : o.fullyConnected = true) :
     ∀ u v, inGrid rows cols u → inGrid rows cols v → Reach o.edges u v := by
-  have hsub := (C01_dfsperc_wf hr hc hg h).2.2
+  have hsub := (C01_dfsperc_wf hr hc h).2.2
   unfold genDfsPercolationTop at h
   split at h
   · simp at h
@@ -112,11 +107,7 @@ theorem C12_dfsperc_flag_sound {rows cols : Nat} (hr : 0 < rows) (hc : 0 < cols)
         split at h
         · simp at h
         · simp only [Option.some.injEq] at h; subst h
-          have hin : inGrid rows cols start := by
-            unfold startCoord at hst
-            split at hst
-            · simp only [Option.some.injEq, Prod.mk.injEq] at hst; obtain ⟨rfl, _⟩ := hst; exact hg _ rfl
-            · exact C01_start_in_grid hr hc hst
+          have hin : inGrid rows cols start := startCoord_in_grid' hr hc hst
           simp only [decide_eq_true_eq] at hflag
           intro u v hu hv
           exact ((genDfs_flag_iff hin hs).mp hflag u v hu hv).mono hsub
@@ -124,7 +115,6 @@ theorem C12_dfsperc_flag_sound {rows cols : Nat} (hr : 0 < rows) (hc : 0 < cols)
 /-- consequence used by endpoint sampling (C03): any two cells of the component the code reads off the dfs metadata
     are mutually reachable -/
 theorem C12_endpoints_reachable {rows cols : Nat} (hr : 0 < rows) (hc : 0 < cols) {a given draws fuel o}
-    (hg : ∀ c, given = some c → inGrid rows cols c)
     (h : genDfsTop rows cols a given draws fuel = some o) :
     ∀ u ∈ metaComponent rows cols o.fullyConnected o.visited,
     ∀ v ∈ metaComponent rows cols o.fullyConnected o.visited, Reach o.edges u v := by
@@ -133,10 +123,10 @@ theorem C12_endpoints_reachable {rows cols : Nat} (hr : 0 < rows) (hc : 0 < cols
   cases hfl : o.fullyConnected with
   | true =>
     rw [hfl] at hu hv; simp only [if_true] at hu hv
-    exact (C12_dfs_flag_iff hr hc hg h).mp hfl u v (mem_cells.mp hu) (mem_cells.mp hv)
+    exact (C12_dfs_flag_iff hr hc h).mp hfl u v (mem_cells.mp hu) (mem_cells.mp hv)
   | false =>
     rw [hfl] at hu hv; simp only [Bool.false_eq_true, if_false] at hu hv
-    exact ((C12_dfs_visited_exact hr hc hg h u).mp hu).symm.trans ((C12_dfs_visited_exact hr hc hg h v).mp hv)
+    exact ((C12_dfs_visited_exact hr hc h u).mp hu).symm.trans ((C12_dfs_visited_exact hr hc h v).mp hv)
 
 /-! ## percolation generators: `visited_cells` is recomputed by `gen_connected_component_from(start_coord)` -/
 
@@ -164,10 +154,9 @@ theorem C12_percolation_visited_exact {rows cols : Nat} {p given draws rands fue
 
 /-- gen_dfs_percolation: likewise, on the union of the dfs tree and the percolated connections -/
 theorem C12_dfsperc_visited_exact {rows cols : Nat} (hr : 0 < rows) (hc : 0 < cols) {p a given draws rands fuel o}
-    (hg : ∀ c, given = some c → inGrid rows cols c)
     (h : genDfsPercolationTop rows cols p a given draws rands fuel = some o) (t : Cell) :
     t ∈ o.visited ↔ Reach o.edges o.start t := by
-  have hwf := (C01_dfsperc_wf hr hc hg h).1
+  have hwf := (C01_dfsperc_wf hr hc h).1
   unfold genDfsPercolationTop at h
   split at h
   · simp at h
@@ -189,10 +178,33 @@ theorem C12_component_of_start_ok {rows cols : Nat} {E : List Edge} (hwf : WF ro
   ⟨fun c hc => reach_inGrid hwf hs ((hV c).mp hc),
    fun u hu v hv => ((hV u).mp hu).symm.trans ((hV v).mp hv)⟩
 
+/-- gen_percolation, every `start_coord` argument: the recorded start lies in the grid and is visited, and every
+    recorded visited cell lies in the grid (no phantom cell) -/
+theorem C12_percolation_visited_in_grid {rows cols : Nat} (hr : 0 < rows) (hc : 0 < cols) {p given draws rands fuel o}
+    (h : genPercolationTop rows cols p given draws rands fuel = some o) :
+    inGrid rows cols o.start ∧ o.start ∈ o.visited ∧ ∀ c ∈ o.visited, inGrid rows cols c := by
+  have hs := ((C01_start_in_grid_of_success hr hc (given := given)).2.2.1 h).1
+  have hV := C12_percolation_visited_exact h
+  exact ⟨hs, (hV _).mpr (Reach.refl _), (C12_component_of_start_ok (C01_percolation_wf h).1 hs hV).1⟩
+
+/-- gen_dfs_percolation, every `start_coord` argument: likewise -/
+theorem C12_dfsperc_visited_in_grid {rows cols : Nat} (hr : 0 < rows) (hc : 0 < cols) {p a given draws rands fuel o}
+    (h : genDfsPercolationTop rows cols p a given draws rands fuel = some o) :
+    inGrid rows cols o.start ∧ o.start ∈ o.visited ∧ ∀ c ∈ o.visited, inGrid rows cols c := by
+  have hs := ((C01_start_in_grid_of_success hr hc (given := given)).2.2.2 h).1
+  have hV := C12_dfsperc_visited_exact hr hc h
+  exact ⟨hs, (hV _).mpr (Reach.refl _), (C12_component_of_start_ok (C01_dfsperc_wf hr hc h).1 hs hV).1⟩
+
 /-! ## non-vacuity -/
 example : (genDfsTop 3 3 ⟨4, 18, true, false⟩ (some (1, 1)) [0, 0, 0, 0] 50).map
     (fun o => (o.visited.length, o.fullyConnected)) = some (4, false) := by decide
 example : (genDfsTop 2 3 ⟨6, 12, false, false⟩ (some (0, 0)) [0, 0, 0, 0, 0] 50).map
     (fun o => decide (o.edges = pathEdges o.visited)) = some true := by decide
+-- the reproduced defect input: a start outside the grid yields no metadata at all (error branch), an in-grid one does
+example : genDfsTop 3 3 (defaultArgs 3 3 false) (some (3, 0)) (List.replicate 36 0) 18 = none := by decide
+example : (genDfsTop 3 3 (defaultArgs 3 3 false) (some (2, 2)) (List.replicate 36 0) 18).map
+    (fun o => (o.start, o.visited.length, o.fullyConnected)) = some ((2, 2), 9, true) := by decide
+example : (genPercolationTop 2 2 (1, 2) (some (1, 1)) [] [(0,2),(1,2),(0,2),(1,2),(1,2),(1,2),(1,2),(1,2)] 22).map
+    (fun o => (o.start, o.visited)) = some ((1, 1), [(1, 1)]) := by decide
 
 end MZ
